@@ -15,7 +15,7 @@ type case = {
 
 let id = "C02"
 let rule = "parser records (plain encodings from the cupcake encoder, every compact encoding from the Coq spec encoders: ziplist list/hash/zset, intset, \
-zipmap, quicklist, zset2; LZF and integer strings; collection sizes 99/100/101/200/201; hashes split into chunk records by Spec.key_records with small limits; \
+zipmap, quicklist, zset2; LZF and integer strings; collection sizes 99/100/101/200/201 in plain AND compact encodings (ziplist list/hash/zset, intset, quicklist nodes); hashes split into chunk records by Spec.key_records with small limits; \
 lua script records; opaque stream payloads) x expiry (none / future / past) x key with and without {hash tags} x key_exists in {none, rewrite, ignore} x \
 target with/without REPLACE x big-key threshold (0, payload length-1, payload length, 1e6) x target rejecting value types above 0/4/8 ('Bad data format') x \
 old/new BUSYKEY wording x target.version strings (5, 5.0, 4.0.14, 2.8, 6, 5.a, empty, 7.0.5) x time shift x pre-existing target key (absent, same type, \
@@ -71,6 +71,27 @@ let gen_case st =
           | _ -> LZSet (List.init n (fun i -> (bs ("z" ^ string_of_int i), bits_of_float (float_of_int i /. 4.0)))) in
         let p = string_of_bytes (encode_dump fmt_g17 v) in
         ([ mk (Char.code p.[0]) p 0 1 ], Some v, Printf.sprintf "plain %s of %d" (kind_of_logical v) n)
+    | 4 when rnd_int st 3 = 0 ->       (* compact encodings with collection sizes around the 100-command flush batch *)
+        let n = rnd_pick st [ 99; 100; 101; 199; 200; 201; 250 ] in
+        let zs i = ZStr6 (bs (Printf.sprintf "e%d" i)) in
+        (match rnd_int st 5 with
+         | 0 -> let vals = List.init n zs in
+                ([ mk 10 (payload_of 10 (string_of_bytes (rstr st (ziplist st vals)))) 0 1 ], Some (LList (List.map zval_logical vals)), Printf.sprintf "ziplist list of %d" n)
+         | 1 -> let vals = List.concat (List.init n (fun i -> [ zs i; ZI16 (z_of_int (i - 50)) ])) in
+                let l = List.map zval_logical vals in
+                let rec prs = function a :: b :: r -> (a, b) :: prs r | _ -> [] in
+                ([ mk 13 (payload_of 13 (string_of_bytes (rstr st (ziplist st vals)))) 0 1 ], Some (LHash (prs l)), Printf.sprintf "ziplist hash of %d" n)
+         | 2 -> let ms = List.init n (fun i -> (zs i, bits_of_float (float_of_int i /. 8.0))) in
+                let vals = List.concat_map (fun (m, b) -> [ m; ZStr6 (bs (string_of_bytes (fmt_g17 b))) ]) ms in
+                ([ mk 12 (payload_of 12 (string_of_bytes (rstr st (ziplist st vals)))) 0 1 ], Some (LZSet (List.map (fun (m, b) -> (zval_logical m, b)) ms)), Printf.sprintf "ziplist zset of %d" n)
+         | 3 -> let zs = List.init n (fun i -> string_of_int (i * 7 - 300)) in
+                ([ mk 11 (payload_of 11 (string_of_bytes (rstr st (string_of_bytes (enc_intset (n_of_int 4) (List.map z_of_decimal zs)))))) 0 1 ],
+                 Some (LSet (List.map bs zs)), Printf.sprintf "intset of %d" n)
+         | _ -> let sizes = [ n; 1 + rnd_int st 3; rnd_pick st [ 100; 101; 30 ] ] in
+                let ctr = ref 0 in
+                let zls = List.map (fun k -> List.init k (fun _ -> incr ctr; zs !ctr)) sizes in
+                let body = enc_len (Rdbgen.form st 3) (n_of_int 3) @ List.concat_map (fun vals -> rstr st (ziplist st vals)) zls in
+                ([ mk 14 (payload_of 14 (string_of_bytes body)) 0 1 ], Some (LList (List.map zval_logical (List.concat zls))), Printf.sprintf "quicklist with nodes of %d, small, ~100" n))
     | 4 | 5 | 6 ->
         let rec pick () = match gen_compact st with
           | (d, t, body, Some v) when nonempty v && distinct (no_nan v) = no_nan v && no_nan v = v && not (t = 9 && (match v with LHash l -> List.length l >= 254 || List.exists (fun (a, b) -> List.length a >= 253 || List.length b >= 253) l | _ -> false)) -> (d, t, body, v)
